@@ -146,7 +146,7 @@ def run(ctx: Ctx) -> Result:
                     continue
                 cases.append({"fn": "lifecycle", "kind": f"rule sets on template '{tname}'", "mdl": m, "rules": g["rules"],
                               "expected_stage": g["expected_stage"], "variant": rng.randrange(10**6), "init": init, "seed": k,
-                              "jit": rng.random() < 0.7})
+                              "jit": rng.random() < 0.7, "via_replace": rng.random() < 0.3})
     # the converse: accepted models run to completion -- catalogue + random in-scope models
     known = {k["id"]: k for k in load_known(ctx.prop)}
     kf_names = {k["match"]["catalogue"]: k for k in known.values() if k.get("status") == "known" and "catalogue" in k.get("match", {})}
